@@ -111,6 +111,7 @@ pub enum RuleSyntaxError {
     ExpectedComma       (Token),
     ExpectedColon       (Token),
     ToneTooBig          (Token),
+    NumberTooBig        (Token),
     UnknownIPA          (Token),
     InsertErr           (Token),
     DeleteErr           (Token),
@@ -170,6 +171,7 @@ impl ASCAError for RuleSyntaxError {
             Self::ExpectedComma       (token) => format!("Expected ',', but received '{}'", token.value),
             Self::ExpectedColon       (token) => format!("Expected ':', but received '{}'", token.value),
             Self::ToneTooBig          (_)     => "A tone modifier cannot be more than 4 digits long".to_string(),
+            Self::NumberTooBig        (token) => format!("The number '{}' is too big", token.value),
             Self::UnknownIPA          (token) => format!("Could not get value of IPA '{}'.", token.value),
             Self::InsertErr           (_)     => "The input of an insertion rule must only contain `*` or `∅`".to_string(),
             Self::DeleteErr           (_)     => "The output of a deletion rule must only contain `*` or `∅`".to_string(),
@@ -224,6 +226,7 @@ impl ASCAError for RuleSyntaxError {
             Self::ExpectedComma       (t) | 
             Self::ExpectedColon       (t) | 
             Self::ToneTooBig          (t) | 
+            Self::NumberTooBig        (t) | 
             Self::UnknownIPA          (t) | 
             Self::InsertErr           (t) | 
             Self::DeleteErr           (t) | 
